@@ -268,7 +268,6 @@ class Env:
                 if self.ctx.must(cond) is not None:
                     for rid, r in regs:
                         self.excused.append((label, rid))
-                    self.ctx.assume(cond)
         else:
             if not cond:
                 for rid, r in regs:
